@@ -2040,6 +2040,21 @@ fn run_c10(args: &Args) {
     let mut o = Out::new(&args.out, &imports, 170);
     let mut seen = Seen::default();
     let by_name = |n: &str| schemas.iter().find(|s| s.name == n);
+    // every schema used satisfies the executable form of the hypothesis `schema_ok` of C10_front_total
+    if !oracle_only {
+        for sc in &schemas {
+            o.add_spec(
+                Case {
+                    input: json!({"schema": sc.name, "check": "schema_okb (hypothesis of front_total) holds for this schema"}),
+                    coq: format!("show_schema_ok {}", sc.coq_name),
+                    imp: "T".into(),
+                    nontrivial: true,
+                    key: format!("schema_ok|{}", sc.name),
+                },
+                None,
+            );
+        }
+    }
     // (o) fixed corpora
     let mut bases: Vec<(usize, String)> = vec![]; // (schema index, text) to mutate
     for (sn, q) in witness_corpus() {
@@ -2168,7 +2183,7 @@ fn main() {
 }
 
 fn stage2_imports(schemas: &[SInfo]) -> String {
-    let mut s = String::from("From TF Require Import SchemaNew Front.\nDefinition show_both (os : option schema) (d : document) : string := show_parse_doc d ++ \" || \" ++ show_front_doc os d ++ \" || \" ++ show_index_doc os d.\n");
+    let mut s = String::from("From TF Require Import SchemaNew Front FrontTotal.\nDefinition show_schema_ok (os : option schema) : string := match os with Some sc => show_bool (schema_okb sc) | None => \"NO-SCHEMA\" end.\nDefinition show_both (os : option schema) (d : document) : string := show_parse_doc d ++ \" || \" ++ show_front_doc os d ++ \" || \" ++ show_index_doc os d.\n");
     for sc in schemas {
         s.push_str(&format!("Definition {} := Eval vm_compute in (schema_of_doc {}).\n", sc.coq_name, sc.coq_doc));
     }
